@@ -163,6 +163,33 @@ Proof.
   split; [vm_compute; reflexivity | discriminate].
 Qed.
 
+(* ================= the default's journey through the null-member rewrite ================= *)
+
+(* the rewritten union carries the outer default: for every declared default that is not the literal text None, the nullable enum's
+   default is exactly what the null-free enum makes of it (a member / a listed value, or an error) - never dropped *)
+Theorem nullable_default_carried : forall o inner pd,
+  conv_none pd = Err -> nullable_enum_default o inner pd = convert_value o inner pd.
+Proof.
+  intros o inner pd Hn. unfold nullable_enum_default.
+  assert (U : convert_value o (CUnion [CNone; inner]) pd = convert_value o inner pd).
+  { rewrite convert_union_eq. destruct pd as [|b|z|f|s|s]; [discriminate Hn | ..];
+      cbn [union_go]; cbv zeta; change (convert_value o CNone ?v) with (conv_none v); rewrite Hn; cbn [is_err];
+      destruct (convert_value o inner _) as [d| |]; reflexivity. }
+  rewrite U. destruct (convert_value o inner pd) as [d| |]; reflexivity.
+Qed.
+
+Theorem nullable_default_not_dropped : forall o vt cls ms vals pd d,
+  pd <> JNull -> conv_none pd = Err ->
+  (nullable_enum_default o (CEnum vt cls ms) pd = Ok d -> d <> None) /\
+  (nullable_enum_default o (CLitEnum vt vals) pd = Ok d -> d <> None).
+Proof.
+  intros o vt cls ms vals pd d Hpd Hn. split; intros H E; subst d; rewrite (nullable_default_carried _ _ _ Hn) in H;
+    apply conv_ok_none in H as [X|[X|(m & X)]]; try discriminate X; exact (Hpd X).
+Qed.
+
+Print Assumptions nullable_default_carried.
+Print Assumptions nullable_default_not_dropped.
+
 Print Assumptions conv_ok_none.
 Print Assumptions ref_default_revalidated.
 Print Assumptions ref_default_not_dropped.
